@@ -27,6 +27,11 @@ for L in (1, 2, 4):
             sp = Spectrum(grid_nm * f, curve, unit)
             got = lentil.detector.collect_charge(img, wave_nm * g, sp, waveunit=cube_unit)
             a.check(np.allclose(got, want, rtol=1e-9), {'L': L, 'spectrum_unit': unit, 'cube_unit': cube_unit})
+        # the documented default for the cube wavelengths is nanometres, whatever unit the QE spectrum is tabulated in
+        with a.case({'L': L, 'spectrum_unit': unit, 'cube_unit': 'default'}):
+            sp = Spectrum(grid_nm * f, curve, unit)
+            got = lentil.detector.collect_charge(img, wave_nm, sp)
+            a.check(bool(np.allclose(got, want, rtol=1e-9)), {'L': L, 'spectrum_unit': unit, 'cube_unit': 'default (nm)'})
 
 b = Bounded('detector.collect_charge_bayer::reference_selection', 'patterns RGGB GRBG BGGR RGBGBRBRG, oversample 1..5, 2 image sizes each; random per-channel QE vectors',
             'every sub-pixel uses the QE of the colour of its native pixel; equal QE reproduces collect_charge; channels sum to the flattened image')
